@@ -21,7 +21,7 @@ def run(ctx):
         o = "%s.%d" % (out, i)
         outs.append(o)
         jobs.append(dict(module="MC_C12", name="MC_C12_" + op, view="View", workers=3, timeout=3300, invariants=("ScalarIsBlock",),
-                         constants=dict(Seed=ctx.seed, Ops=q([op]), SeqIds=S(seqs), Aligns=S([0, 1]), FaultKinds=q(["err", "eof"]),
+                         constants=dict(Seed=ctx.seed, Ops=q([op]), SeqIds=S(seqs), CmpIds=S(range(0, 81)), Aligns=S([0, 1]), FaultKinds=q(["err", "eof"]),
                                         FaultStride=(8 if quick else 1), OutFile=core.tla_str(o))))
     ctx.tlc_many(jobs, parallel=6)
     core.cat_files(outs, out)
@@ -56,4 +56,5 @@ def run(ctx):
                         "SM9 Sign: the signature value needs a GT element, so only the draw (bytes consumed, honest signature verifies, error on fault) is pinned here; exact S given r is part of C10",
                         "each trace is run 8 times so that both MaybeReadByte branches are taken; every run must land in the allowed set",
                         "faults: the byte at index `at` cannot be read (error or EOF, bytes before it are delivered); at = every position (thorough) or a stride plus all block seams (quick)"]
-    return ctx.finish(rule="one case per TLC transition of MC_C12: (operation, leading block classes of the stream relative to the operation's group order, alignment, fault kind and position); distinct = distinct (operation, stream prefix, fault)")
+    ctx.assumptions += ["range test: besides 0, 1, Top, Top+1, n, n+1, 2^256-1 every operation sees the 81 blocks built limb by limb (64-bit limbs below / equal / above those of the bound), each followed by the block 1"]
+    return ctx.finish(rule="one case per TLC transition of MC_C12: (operation, leading block classes of the stream relative to the operation's group order - incl. the 81 limb-structured comparison classes -, alignment, fault kind and position); distinct = distinct (operation, stream prefix, fault)")
